@@ -284,3 +284,35 @@ def run(chk):
                 raise Violation("default slice_solution", str(single.fields['slice_solution']), "all declared outputs")
             return "one common network, one slice per wrapper"
         chk.run("C10.R5", f"{modname}:{fname}", {}, go, construct=f"{fname} shared outputs")
+
+    chk.rule("C10.R6", "factories: slice_solution None = all declared outputs, integer k (0 included) = [k:k+1], slice kept; the "
+                       "other specifications reach the wrapper unchanged", floor=6)
+    factory_slice_rule(chk, "C10.R6", w)
+
+
+def factory_slice_rule(chk, rule_id, w=None):
+    """the factories turn the caller's `slice_solution` into the wrapper's solution slice: None = all declared outputs, an
+    integer k (0 included) = [k : k + 1] so that the component axis survives, a slice = itself; the other specifications
+    (equation type, transforms, output slice) reach the wrapper unchanged"""
+    w = w or make_world(chk.repo)
+    chk.files.update(w.files)
+    layer = lambda *a, **k: OpaqueObj(f"layer{a}")
+    act = lambda x: x
+    eqx_list = ((layer, 2, 8), (act,), (layer, 8, 3))
+    cases = [(None, slice(0, 3)), (0, slice(0, 1)), (1, slice(1, 2)), (2, slice(2, 3)), (slice(1, 3), slice(1, 3)), (slice(0, 1), slice(0, 1))]
+    for modname, fname, extra in ((PINN_MOD, "create_PINN", {}),):
+        for given, want in cases:
+            def go(modname=modname, fname=fname, given=given, want=want, extra=extra):
+                create = w.get(modname, fname)
+                it = lambda i, p: i
+                ot = lambda i, o, p: o
+                net = create(Sym('key'), eqx_list, "nonstatio_PDE", 1, input_transform=it, output_transform=ot,
+                             slice_solution=given, **extra)
+                got = net.fields['slice_solution']
+                if got != want:
+                    raise Violation(f"{fname}(slice_solution={given!r})", f"the wrapper's solution slice is {got}", f"{want}")
+                if net.fields['eq_type'] != "nonstatio_PDE" or net.fields['input_transform'] is not it \
+                        or net.fields['output_transform'] is not ot or net.fields['output_slice'] is not None:
+                    raise Violation(f"{fname}", "equation type / transforms / output slice altered on the way to the wrapper", "unchanged")
+                return f"slice_solution={given!r} -> {want}"
+            chk.run(rule_id, f"{modname}:{fname}", {"slice_solution": str(given)}, go, construct=f"{fname} solution slice")
